@@ -2,6 +2,7 @@ package core
 
 import (
 	"bytes"
+	"errors"
 	"fmt"
 	"sort"
 	"strings"
@@ -134,7 +135,7 @@ func genC19(t *rapid.T, protos []vt.NamedProto) c19Case {
 		c.Msg = string(vt.Bytes(t, "msg", 40))
 		c.Cause = string(vt.Bytes(t, "cause", 40))
 	}
-	c.Failure = rapid.SampledFrom([]string{"", "", "", "", "down-before", "dies-during"}).Draw(t, "failure")
+	c.Failure = rapid.SampledFrom([]string{"", "", "", "", "down-before", "dies-during", "write-fails"}).Draw(t, "failure")
 	c.ProxyCode = rapid.SampledFrom([]string{"json", "plain", "xml"}).Draw(t, "proxycodec")
 	return c
 }
@@ -264,6 +265,10 @@ func runC19(c c19Case, protos []vt.NamedProto) []string {
 	case "down-before":
 		p2b.A.Close()
 		vt.WaitClosed(p2b.A.CloseNotify())
+	case "write-fails":
+		// the proxy's connection to the backend is half-broken: sending fails with an
+		// I/O error while the session still looks healthy
+		p2b.Pair.FailWrites(vt.AtoB, errors.New("write: broken pipe"))
 	case "dies-during":
 		be.mu.Lock()
 		be.entered, be.gate = make(chan struct{}), make(chan struct{})
@@ -363,7 +368,7 @@ func runC19(c c19Case, protos []vt.NamedProto) []string {
 	return fails
 }
 
-const ruleC19 = "the same generated request (method, body bytes, body codec incl. ones different from the proxy peer's default, request metadata with repeated keys, real-IP metadata present/absent, accept-body-codec hint) is sent to a backend directly and through a peer running the proxy plugin; the backend's unknown-handler returns generated body bytes / reply codec / reply metadata / status (any code outside the framework-reserved 100-199); pushes likewise; backend failures: session closed before the call, connection cut while the backend handler is gated; oracle (differential): caller-visible status triple, body bytes, reply codec and reply metadata (key -> one value) equal for both paths; backend saw the same method, body, codec and metadata exactly once plus real-IP = the original caller's address iff absent; a backend connection failure gives 502 on that call only (next proxied call on the same and on another session equals the direct result); non-trivial = non-default codec, repeated/special metadata, non-OK status or a failure; distinct by case"
+const ruleC19 = "the same generated request (method, body bytes, body codec incl. ones different from the proxy peer's default, request metadata with repeated keys, real-IP metadata present/absent, accept-body-codec hint) is sent to a backend directly and through a peer running the proxy plugin; the backend's unknown-handler returns generated body bytes / reply codec / reply metadata / status (any code outside the framework-reserved 100-199); pushes likewise; backend failures: session closed before the call, connection cut while the backend handler is gated, sending to the backend fails with an I/O error while its session still looks healthy; oracle (differential): caller-visible status triple, body bytes, reply codec and reply metadata (key -> one value) equal for both paths; backend saw the same method, body, codec and metadata exactly once plus real-IP = the original caller's address iff absent; a backend connection failure gives 502 on that call only (next proxied call on the same and on another session equals the direct result); non-trivial = non-default codec, repeated/special metadata, non-OK status or a failure; distinct by case"
 
 func TestC19Proxy(t *testing.T) {
 	rec := vt.NewRec(t, "C19", "proxy", ruleC19)
